@@ -372,10 +372,13 @@ def run_sync(am: AM, events, cfg_opts=None, seed_ctx=None, per_event=True, probe
             rec.log.append(("err", err_code(exc)))
         snap()
         for ev in events:
-            if probe_can:
+            if probe_can and ev[0] != "burst":
                 rec.log.append(("can", bool(it.can(make_event(ev)))))
             try:
-                with_timeout(4, lambda: it.send(make_event(ev)))
+                if ev[0] == "burst":
+                    with_timeout(4, lambda: it.send_events([make_event(e) for e in ev[1]]))
+                else:
+                    with_timeout(4, lambda: it.send(make_event(ev)))
             except Timeout:
                 snaps.append([TS("TIMEOUT")])
                 return snaps
@@ -465,9 +468,12 @@ def run_async(am: AM, events, cfg_opts=None, seed_ctx=None, per_event=True, prob
         await quiesce(it)
         snap()
         for ev in events:
-            if probe_can:
+            if probe_can and ev[0] != "burst":
                 rec.log.append(("can", bool(it.can(make_event(ev)))))
-            await it.send(make_event(ev))
+            if ev[0] == "burst":
+                await it.send_events([make_event(e) for e in ev[1]])
+            else:
+                await it.send(make_event(ev))
             await quiesce(it)
             if per_event:
                 snap()
@@ -483,7 +489,7 @@ def run_async(am: AM, events, cfg_opts=None, seed_ctx=None, per_event=True, prob
     timed_out = False
     try:
         try:
-            with_timeout(5, lambda: loop.run_until_complete(main()))
+            with_timeout(3, lambda: loop.run_until_complete(main()))
         except Timeout:
             timed_out = True
             snaps.append([TS("TIMEOUT")])
